@@ -22,12 +22,14 @@ def scenarios(seed):
     rng = random.Random(seed * 1000003 + 6)
     out = []
     # 0: small caught-up scenario (every instant enumerated); 1: initial sync with mixed flushes; 2: reorg; 3: forced reorg
-    for i, kind in enumerate(('caught-up', 'initial-sync', 'reorg', 'forced-reorg')):
-        fk = ('none', 'random', 'alt', 'sparseF')[i]
-        sc = {'sid': f's{seed}-{kind}', 'kind': kind, 'wseed': rng.randrange(1 << 30), 'n0': (8, 16, 12, 12)[i], 'colls': 0,
-              'prefetch': (100, 3, 8, 100)[i], 'reorg_limit': 3, 'flushkind': fk,
+    # 4: the daemon reorganises while the server is still syncing: old-branch blocks above the fork are complete in memory
+    #    (unflushed) when the first block of the new branch fails to connect
+    for i, kind in enumerate(('caught-up', 'initial-sync', 'reorg', 'forced-reorg', 'reorg-mid-sync')):
+        fk = ('none', 'random', 'alt', 'sparseF', 'none')[i]
+        sc = {'sid': f's{seed}-{kind}', 'kind': kind, 'wseed': rng.randrange(1 << 30), 'n0': (8, 16, 12, 12, 10)[i], 'colls': 0,
+              'prefetch': (100, 3, 8, 100, 100)[i], 'reorg_limit': 3, 'flushkind': fk,
               'flushvec': flushvec_of(fk, random.Random(rng.randrange(1 << 30)))}
-        if kind == 'reorg':
+        if kind in ('reorg', 'reorg-mid-sync'):
             sc['fork'] = {'depth': 3, 'ext': 1, 'b_more': 1}
         else:
             sc['more'] = 2
@@ -50,11 +52,23 @@ async def scenario_driver(sc, srv, w, tips, marks, loop):
                 return {'mutate': lambda: w.switch_to(tips['A'])}
             return None
         srv.sim.script = script
+    kind = sc['kind']
+    if kind == 'reorg-mid-sync':
+        # the hashes of the old branch have been handed out; the daemon then moves to the other branch
+        seen = {'hashes': 0}
+
+        def script2(info):
+            # next_block_hashes() hands out half of each batch: the second batch (6..10 -> 6, 7, 8) reaches above the fork point
+            if info['method'] == 'getblockhash':
+                seen['hashes'] += 1
+            elif seen['hashes'] >= 2 and w.tip is tips['A']:
+                return {'mutate': lambda: w.switch_to(tips['B'])}
+            return None
+        srv.sim.script = script2
     await srv.wait_caught_up(600)
     if w.tip is tips.get('A0'):
         w.switch_to(tips['A'])
         await srv.wait_caught_up(600)
-    kind = sc['kind']
     if kind in ('caught-up', 'initial-sync'):
         mark('caught-up-new-block')
         w.switch_to(tips['A+'].ancestor(tips['A'].height + 1))
@@ -66,6 +80,10 @@ async def scenario_driver(sc, srv, w, tips, marks, loop):
         mark('reorg')
         w.switch_to(tips['B'])
         await srv.wait_caught_up(600)
+        mark('after-reorg')
+        w.switch_to(tips['B2'])
+        await srv.wait_caught_up(600)
+    elif kind == 'reorg-mid-sync':
         mark('after-reorg')
         w.switch_to(tips['B2'])
         await srv.wait_caught_up(600)
@@ -169,7 +187,9 @@ def child(case):
             return out
         K = loop.iter
         if k is None:
-            out['dry'] = {'K': K, 'marks': marks, 'jobs': loop.gex.n}
+            out['dry'] = {'K': K, 'marks': marks, 'jobs': loop.gex.n, 'mon': dict(mon.c),
+                          'events': [(kind, d.get('height')) for _t, kind, d in srv.events][:80],
+                          'calls': [(n_, m_) for n_, m_, _b, _u in srv.sim.calls[:12]]}
         if st.get('does_not_stop'):
             out['violations'].append({'key': 'shutdown/does-not-stop', 'what': f'Controller.run() had not returned 900 virtual seconds after SIGTERM at '
                                       f'iteration {k} (jobs alive at the signal: {st["alive_at_signal"]})', 'witness': {'case': case}})
@@ -301,7 +321,7 @@ def run(tier, seed, replay=None):
         small = dc['scenario']['kind'] == 'caught-up'
         for (a, la), (b, _lb) in zip(bounds, bounds[1:]):
             span = list(range(a, max(a + 1, b)))
-            if tier == 'thorough' or (small and la == 'caught-up-new-block'):
+            if tier == 'thorough' or (small and la == 'caught-up-new-block') or (dc['scenario']['kind'] == 'reorg-mid-sync' and la == 'initial-sync'):
                 ks.update(span)                       # every instant of the window
             else:
                 n = 14 if la in ('initial-sync', 'reorg', 'after-reorg', 'caught-up-new-block', 'caught-up-new-block-2') else 6
@@ -322,7 +342,8 @@ def run(tier, seed, replay=None):
         rep.floor(name, c[name], minimum)
     rep.exhaustive = tier == 'thorough'
     return rep.finish(
-        rule='4 scenarios (small caught-up, initial sync with mixed flushes and a growing daemon, natural depth-3 reorg, forced reorg) x '
+        rule='5 scenarios (small caught-up, initial sync with mixed flushes and a growing daemon, natural depth-3 reorg, forced reorg, daemon '
+             'reorganising while the server still syncs so that the first new-branch block fails to connect onto unflushed old-branch blocks) x '
              '4 job-scheduling policies that leave worker jobs parked (lazy, random, PCT, and lazy with the jobs in flight at the signal kept '
              'blocked while the loop thread proceeds - a slow fsync); a dry run counts the loop iterations K and '
              'the phase boundaries; SIGTERM is delivered to the process at loop iteration k through the real Controller.run() signal '
